@@ -325,6 +325,17 @@ impl<'r, 'c, 's, W: Write> Serializer for DatumSerializer<'r, 'c, 's, W> {
 				self.serialize_str(variant)
 			}
 			SchemaNode::Union(union) => {
+				// A unit variant named after the `null` branch designates that branch
+				// (that is also what it gets deserialized from)
+				if let Some((discriminant, SchemaNode::Null)) = union.per_type_lookup.named(variant)
+				{
+					return self
+						.state
+						.writer
+						.write_varint(discriminant)
+						.map(|_| ())
+						.map_err(SerError::io);
+				}
 				self.serialize_union_unnamed(union, UnionVariantLookupKey::UnitVariant, |ser| {
 					ser.serialize_unit_variant(name, variant_index, variant)
 				})
